@@ -3,13 +3,226 @@
 correspondence: the four price functions vs the Lean model over the box (single-call conformance
 is what transfers the theorems of Props/C09 to the code, up to the float bound).
 predicate (real code): each relation evaluated on points / pairs of points; only violations
-larger than the rounding bound of the evaluations involved are reported.
+larger than the rounding bound of the evaluations involved are reported.  The same relations are
+evaluated on (a) positional calls of the functionals in their documented parameter order,
+(b) BATCHED evaluations (mixed regimes in one tensor, several layouts / broadcasting) which must
+also reproduce the one-element evaluations bit for bit, and (c) prices that a Black-Scholes module
+takes from a simulated derivative (non-dyadic strikes, underlier started exactly on the strike).
 """
 import math
 from common import *  # noqa
 from bs_common import *  # noqa
 
 EPS = 1e-11
+
+# documented parameter order of the price functionals (pfhedge/nn/functional.py signatures / docstrings)
+POS_ORDER = {
+    "european_price": ("log_moneyness", "time_to_maturity", "volatility", "strike", "call"),
+    "european_binary_price": ("log_moneyness", "time_to_maturity", "volatility", "call"),
+    "american_binary_price": ("log_moneyness", "max_log_moneyness", "time_to_maturity", "volatility"),
+    "lookback_price": ("log_moneyness", "max_log_moneyness", "time_to_maturity", "volatility", "strike"),
+}
+
+
+def call_bs_positional(torch, g, fn, s, t, v, k, m, call):
+    """bs_<fn>(...) with EVERY argument given positionally in the documented order; a trailing
+    argument that equals its documented default (call=True) is left out half of the time"""
+    import pfhedge.nn.functional as fnl
+    T = lambda x: x if isinstance(x, torch.Tensor) else torch.tensor([x], dtype=torch.float64)
+    vals = {"log_moneyness": T(s), "max_log_moneyness": T(m), "time_to_maturity": T(t), "volatility": T(v), "strike": k, "call": call}
+    args = [vals[a] for a in POS_ORDER[fn]]
+    if POS_ORDER[fn][-1] == "call" and call is True and g.chance(0.5):
+        args.pop()
+    return getattr(fnl, "bs_" + fn)(*args)
+
+
+def same_bits(a, b):
+    return (math.isnan(a) and math.isnan(b)) or float_bits(a) == float_bits(b)
+
+
+def point_relations(bad, pre, S, k, M, reached, c, p, bc, bp, ab, lb, eps=EPS, par=1e-10, binpar=1e-12):
+    """the single-point relations of the property (same tolerances as in the sweep of check() when the
+    defaults are used) on prices obtained another way; S spot, M running maximum (price units),
+    reached = the running maximum is at or above the strike.  `bad(what, key, **detail)`"""
+    sc = max(1.0, k, S)
+    if abs((c - p) - (S - k)) > par * sc:
+        bad("European call minus put differs from spot minus strike", pre + "put-call-parity", call=c, put=p, spot=S)
+    if abs(bc + bp - 1.0) > binpar:
+        bad("binary call plus binary put differs from one", pre + "binary-parity", call=bc, put=bp)
+    if not (max(S - k, 0.0) - eps * sc <= c <= S + eps * sc):
+        bad("European call outside [intrinsic value, spot]", pre + "call-bounds", call=c, spot=S)
+    if not (-eps <= bc <= 1 + eps) or not (-eps <= ab <= 1 + eps):
+        bad("binary / American binary price outside [0,1]", pre + "binary-range", binary=bc, american=ab)
+    if not ab >= bc - eps:
+        bad("American binary worth less than the European binary", pre + "american-ge-european", american=ab, european=bc)
+    if reached and ab != 1.0:
+        bad("American binary is not exactly one once the barrier has been reached", pre + "american-after-hit", american=ab, spot=S, running_max=M)
+    if not lb >= c - eps * sc:
+        bad("lookback call worth less than the European call", pre + "lookback-ge-european", lookback=lb, call=c)
+    if not lb >= max(M - k, 0.0) - eps * sc:
+        bad("lookback call worth less than its locked-in payoff", pre + "lookback-ge-locked-in", lookback=lb, locked=M - k)
+
+
+FNS = (("european_price", True), ("european_price", False), ("european_binary_price", True), ("european_binary_price", False),
+       ("american_binary_price", True), ("lookback_price", True))
+
+
+def batched_block(ctx, torch, g, n_batches):
+    """one call on a tensor of scenarios (max below / at / above the strike, spot below / at its max,
+    mixed in one batch; flat, matrix, broadcast grid, strided and expanded layouts) must give, element
+    by element, exactly the value of the one-element call, and the relations must hold on the batch"""
+    from pfhedge.nn import BSEuropeanOption, BSEuropeanBinaryOption, BSAmericanBinaryOption, BSLookbackOption
+    D = torch.float64
+    mk = lambda xs: torch.tensor(xs, dtype=D)
+    for _ in range(n_batches):
+        k = g.choice([g.r.uniform(0.1, 10), 1.0, 1.1, 0.5, 7.5])
+        lay = g.choice(["flat", "flat", "matrix", "grid", "grid-strided", "expand"])
+        if lay in ("flat", "matrix"):
+            a, b = (1, g.randint(2, 12)) if lay == "flat" else (g.randint(2, 4), g.randint(1, 4))
+            pts = [gen_point(g, True) for _ in range(a * b)]
+            elems = [(s, m, t, v) for s, t, v, _, m in pts]
+            shape = (b,) if lay == "flat" else (a, b)
+            S_, M_, T_, V_ = (mk([e[i] for e in elems]).reshape(shape) for i in range(4))
+        else:
+            n, q = g.randint(2, 6), g.randint(1, 4)
+            rows = [gen_point(g, True) for _ in range(n)]
+            cols = [gen_point(g, False)[1] for _ in range(q)]
+            v0 = gen_point(g, False)[2]
+            elems = [(r[0], r[4], t, v0) for r in rows for t in cols]
+            shape = (n, q)
+            s_, m_, t_ = mk([r[0] for r in rows]), mk([r[4] for r in rows]), mk(cols)
+            if lay == "grid":          # (n,1) x (q,) x 0-dim
+                S_, M_, T_, V_ = s_[:, None], m_[:, None], t_, mk(v0)
+            elif lay == "grid-strided":  # columns / rows of larger tensors (non-contiguous views)
+                big, big2 = torch.zeros(n, 3, dtype=D), torch.zeros(2, n, dtype=D)
+                big[:, 1], big2[1] = s_, m_
+                S_, M_, T_, V_ = big[:, 1:2], big2[1][:, None], t_[None, :], mk([[v0]])
+            else:                       # stride-0 expanded views of the full shape
+                S_, M_, T_, V_ = s_[:, None].expand(n, q), m_[:, None].expand(n, q), t_[None, :].expand(n, q), mk(v0).expand(n, q)
+        via = g.choice(["functional", "functional", "module"])
+        regimes = sorted({("below" if m < 0 else "at" if m == 0 else "above") + ("/spot-at-max" if s == m else "/spot-below-max") for s, m, _, _ in elems})
+        mixed = any(r.startswith("below") for r in regimes) and any(not r.startswith("below") for r in regimes)
+        case = {"kind": "batched", "layout": lay, "via": via, "k": k, "shape": list(shape), "elems": [list(e) for e in elems], "regimes": regimes}
+        ctx.case(case, mixed, tag="batched")
+        ctx.stats[f"batched layout={lay}"] += 1
+        ctx.stats["batched mixed-regimes" if mixed else "batched one-regime"] += 1
+        ctx.traces += 1
+        out = {}
+        for fn, call in FNS:
+            if via == "module":
+                if fn == "european_price":
+                    val = BSEuropeanOption(call=call, strike=k).price(S_, T_, V_)
+                elif fn == "european_binary_price":
+                    val = BSEuropeanBinaryOption(call=call, strike=k).price(S_, T_, V_)
+                elif fn == "american_binary_price":
+                    val = BSAmericanBinaryOption(strike=k).price(S_, M_, T_, V_)
+                else:
+                    val = BSLookbackOption(strike=k).price(S_, M_, T_, V_)
+            else:
+                val = call_bs(torch, fn, S_, T_, V_, k, M_, call)
+            if tuple(val.shape) != tuple(shape):
+                ctx.fail("batched price does not have the broadcast shape of its inputs", case | {"fn": fn, "call": call},
+                         key=f"batched:{fn}:shape", detail={"got": list(val.shape), "expected": list(shape)})
+                out = None
+                break
+            vals = [float(x) for x in val.reshape(-1)]
+            out[(fn, call)] = vals
+            for i, (s, m, t, v) in enumerate(elems):
+                one = float(call_bs(torch, fn, [s], [t], [v], k, [m], call))
+                if not same_bits(vals[i], one):
+                    ctx.fail("the price of one scenario depends on what else is evaluated in the same batch (batched value differs from the one-element call)",
+                             case | {"fn": fn, "call": call, "index": i, "point": {"s": s, "m": m, "t": t, "v": v}},
+                             key=f"batched:{fn}:differs-from-single", detail={"batched": vals[i], "single": one})
+                    break
+        if out is None:
+            continue
+        for i, (s, m, t, v) in enumerate(elems):
+            def bad(what, key, **d):
+                ctx.fail(what + " (batched evaluation)", case | {"index": i, "point": {"s": s, "m": m, "t": t, "v": v}}, key=key, detail=d)
+            point_relations(bad, "batched:", k * math.exp(s), k, k * math.exp(m), m >= 0,
+                            out[("european_price", True)][i], out[("european_price", False)][i],
+                            out[("european_binary_price", True)][i], out[("european_binary_price", False)][i],
+                            out[("american_binary_price", True)][i], out[("lookback_price", True)][i])
+
+
+def derivative_block(ctx, torch, g, n_scen):
+    """prices that BlackScholes(derivative) takes from a simulated derivative (log-moneyness, running
+    maximum, time to maturity and volatility all come from the instrument): non-dyadic strikes, the
+    underlier started exactly on the strike (so the barrier is reached at step 0 whatever happens later),
+    just below / above it, float32 and float64 markets.
+    reached := running maximum of the simulated spot >= strike, the strike taken as the market's dtype
+    represents it (init_state=(K,) puts the spot exactly there; the derivative's own payoff compares the
+    same way).  For such a path the unchanged code is exact: S >= K gives fl(S/K) >= 1 and log >= 0."""
+    from pfhedge.instruments import BrownianStock, EuropeanOption, EuropeanBinaryOption, AmericanBinaryOption, LookbackOption
+    from pfhedge.nn import BlackScholes
+    for _ in range(n_scen):
+        dtype = g.choice([torch.float32, torch.float64])
+        K = g.choice([0.9, 0.95, 1.01, 1.03, 1.05, 1.3, 0.7, 1.1, 1.2, 3.0, 110.0, 1.0, 2.0,
+                      round(g.r.uniform(0.5, 2.0), 2), round(g.r.uniform(0.5, 2.0), 3), g.r.uniform(0.3, 3.0)])
+        sigma = g.choice([0.2, 0.1, 0.4, round(g.r.uniform(0.05, 0.8), 2)])
+        dt = g.choice([1 / 250, 1 / 365, 0.01])
+        n_steps = g.randint(2, 8)
+        maturity = n_steps * dt
+        start = g.weighted([("at-strike", 6), ("below", 2), ("above", 1), ("one-ulp-above", 1)])
+        Kd = float(torch.tensor(K, dtype=dtype))     # the strike as the market's dtype holds it
+        if start == "at-strike":
+            init = K
+        elif start == "below":
+            init = K * g.choice([0.999, 0.98, 0.9])
+        elif start == "above":
+            init = K * g.choice([1.001, 1.05])
+        else:
+            init = float(torch.nextafter(torch.tensor(K, dtype=dtype), torch.tensor(math.inf, dtype=dtype)))
+        n_paths = g.randint(1, 6)
+        tseed = g.randint(0, 10 ** 6)
+        case = {"kind": "derivative", "dtype": str(dtype), "strike": K, "sigma": sigma, "dt": dt, "n_steps": n_steps,
+                "start": start, "init_state": init, "n_paths": n_paths, "torch_seed": tseed}
+        ctx.case(case, True, tag="derivative")
+        ctx.stats[f"derivative start={start}"] += 1
+        ctx.stats[f"derivative dtype={str(dtype).split('.')[-1]}"] += 1
+        ctx.traces += 1
+        stock = BrownianStock(sigma=sigma, dt=dt).to(dtype)
+        ders = {
+            "c": EuropeanOption(stock, call=True, strike=K, maturity=maturity), "p": EuropeanOption(stock, call=False, strike=K, maturity=maturity),
+            "bc": EuropeanBinaryOption(stock, call=True, strike=K, maturity=maturity), "bp": EuropeanBinaryOption(stock, call=False, strike=K, maturity=maturity),
+            "ab": AmericanBinaryOption(stock, strike=K, maturity=maturity), "lb": LookbackOption(stock, strike=K, maturity=maturity),
+        }
+        torch.manual_seed(tseed)
+        # half of the time through a derivative's own simulate(), otherwise through the shared underlier
+        if g.chance(0.5):
+            ders[g.choice(["ab", "lb", "c"])].simulate(n_paths=n_paths, init_state=(init,))
+        else:
+            stock.simulate(n_paths=n_paths, time_horizon=maturity, init_state=(init,))
+        spot = stock.spot.to(torch.float64)
+        if start == "at-strike" and not bool((spot[:, 0] == Kd).all()):
+            raise InternalError(f"scenario construction: spot does not start on the strike {Kd}: {spot[:, 0].tolist()}")
+        rmax = spot.cummax(dim=-1).values
+        ttm = ders["ab"].time_to_maturity().to(torch.float64)
+        pr = {}
+        for nm, d in ders.items():
+            st, val, _ = call_impl(BlackScholes(d).price)
+            if st != "ok" or tuple(val.shape) != tuple(spot.shape):
+                ctx.fail("BlackScholes(derivative).price() raised / has not the shape of the simulated spot", case | {"derivative": nm},
+                         key="derivative:price-call", detail=str(val)[:300] if st != "ok" else list(val.shape))
+                pr = None
+                break
+            pr[nm] = val.to(torch.float64)
+        if pr is None:
+            continue
+        f32 = dtype == torch.float32
+        # float32 prices: tolerances in units of the float32 rounding error (2^-24 instead of 2^-53 would be
+        # 5e8 times the float64 bounds; 2e-5 relative to the scale, ~170 float32 ulps, is what is demanded here)
+        tol = dict(eps=2e-5, par=2e-5, binpar=2e-6) if f32 else {}
+        for i in range(spot.shape[0]):
+            for j in range(spot.shape[1]):
+                if not float(ttm[i, j]) > 0:       # the property speaks about time to maturity > 0
+                    continue
+                S, M = float(spot[i, j]), float(rmax[i, j])
+
+                def bad(what, key, **d):
+                    ctx.fail(what + " (price taken from the simulated derivative)",
+                             case | {"path": i, "step": j, "spot_path": [float(x) for x in spot[i, :j + 1]], "strike_in_dtype": Kd}, key=key, detail=d)
+                point_relations(bad, "derivative:", S, K, M, M >= Kd, *(float(pr[nm][i, j]) for nm in ("c", "p", "bc", "bp", "ab", "lb")), **tol)
 
 
 def check(ctx):
@@ -31,13 +244,17 @@ def check(ctx):
         if fn == "american_binary_price":
             return float(BSAmericanBinaryOption(strike=k).price(T64(s), T64(m), T64(t), T64(v)))
         return float(BSLookbackOption(strike=k).price(T64(s), T64(m), T64(t), T64(v)))
+
+    def PP(fn, s, t, v, k, m=None, call=True):
+        """the functional with all arguments positional, in the documented order"""
+        return float(call_bs_positional(torch, g, fn, s, t, v, k, s if m is None else m, call))
     items, metas = [], []
     for _ in range(n):
         s, t, v, k, m = gen_point(g, True)
-        use_mod = g.chance(0.3)
-        P = PM if use_mod else PF
-        ctx.stats[f"via={'module' if use_mod else 'functional'}"] += 1
-        case = {"s": s, "t": t, "v": v, "k": k, "m": m, "via": "module" if use_mod else "functional"}
+        via = g.weighted([("module", 0.3), ("positional", 0.15), ("functional", 0.55)])
+        P = {"module": PM, "positional": PP, "functional": PF}[via]
+        ctx.stats[f"via={via}"] += 1
+        case = {"s": s, "t": t, "v": v, "k": k, "m": m, "via": via}
         ctx.case(case, True, tag="relations")
         ctx.traces += 1
         S = k * math.exp(s)
@@ -52,6 +269,8 @@ def check(ctx):
             metas.append((case | {"fn": fn, "call": call}, val))
 
         def bad(what, key, **d):
+            if via == "positional":     # a relation broken only for positional calls is a finding of its own
+                what, key = what + " (functional called positionally in its documented parameter order)", "positional:" + key.split(":", 1)[1]
             ctx.fail(what, case, key=key, detail=d)
         if abs((c - p) - (S - k)) > 1e-10 * sc:
             bad("European call minus put differs from spot minus strike", "relation:put-call-parity", call=c, put=p)
@@ -89,6 +308,8 @@ def check(ctx):
             lo, hi = P("lookback_price", s, t, v, k, -1e-13), P("lookback_price", s, t, v, k, 0.0)
             if abs(lo - hi) > 1e-9 * sc:
                 bad("lookback price jumps where the running maximum crosses the strike", "relation:lookback-continuity", below=lo, at=hi)
+    batched_block(ctx, torch, g, 120 if ctx.tier == "quick" else 1000)
+    derivative_block(ctx, torch, g, 80 if ctx.tier == "quick" else 600)
     try:
         mv = model_vals(ctx, items)
     except DriverBroken as e:
@@ -98,5 +319,7 @@ def check(ctx):
         if isinstance(m_, tuple) or not rel_close(got, m_, 1e-10, 1e-12):
             ctx.disagree("bs_price", case, got, m_)
     return ctx.finish(
-        rule="prices quoted by the functional forms and (30 %) by the pricing modules built with the strike / call flag; points of the open domain with running max >= spot (incl. equality and max exactly at the strike) and pairs at relative distances "
-             "{0.3, 0.05, 1e-3} for the monotonicity / convexity relations; every case non-trivial; distinct = sha1 of canonical case")
+        rule="prices quoted by the functional forms (keywords; 15 % with every argument positional in the documented order) and (30 %) by the pricing modules built with the strike / call flag; points of the open domain with running max >= spot (incl. equality and max exactly at the strike) and pairs at relative distances "
+             "{0.3, 0.05, 1e-3} for the monotonicity / convexity relations; batched calls (2-16 scenarios with the running max below / at / above the strike mixed in one tensor; flat, matrix, broadcast grid, strided and expanded layouts; "
+             "functional or module) compared bit for bit with the one-element calls and checked against the point relations (non-trivial = regimes mixed); Black-Scholes modules reading simulated derivatives (BrownianStock float32/float64, "
+             "decimal / random strikes, started exactly on / below / above the strike, 1-6 paths, 2-8 steps) checked against the point relations at every step with time to maturity > 0; distinct = sha1 of canonical case")
